@@ -89,6 +89,24 @@ func (c *ClientConn) CloseWithError(err error) {
 	}
 }
 
+// closeByConn is the close notification of conn, a connection this ClientConn
+// has made. A ClientConn is reused (Reset, or a new dial after a failed request):
+// when the notification of an earlier connection arrives late, it must not fail
+// the requests of, and close, the connection that has replaced it.
+//
+//go:norace
+func (c *ClientConn) closeByConn(conn net.Conn, err error) {
+	c.mux.Lock()
+	defer c.mux.Unlock()
+	if c.conn != conn {
+		return
+	}
+	if !c.closed {
+		c.closed = true
+		c.closeWithErrorWithoutLock(err)
+	}
+}
+
 //go:norace
 func (c *ClientConn) closeWithErrorWithoutLock(err error) {
 	if err == nil {
@@ -120,11 +138,13 @@ func (c *ClientConn) closeWithErrorWithoutLock(err error) {
 }
 
 //go:norace
-func (c *ClientConn) onResponse(res *http.Response, err error) {
+func (c *ClientConn) onResponse(conn net.Conn, res *http.Response, err error) {
 	c.mux.Lock()
 	defer c.mux.Unlock()
 
-	if !c.closed && len(c.handlers) > 0 {
+	// A response read from a connection that has been replaced meanwhile does
+	// not belong to any of the requests that are waiting now.
+	if !c.closed && c.conn == conn && len(c.handlers) > 0 {
 		head := c.handlers[0]
 		head.h(res, c.conn, err)
 
@@ -290,10 +310,12 @@ func (c *ClientConn) Do(req *http.Request, handler func(res *http.Response, conn
 			engine.mux.Unlock()
 
 			c.conn = nbc
-			processor := NewClientProcessor(c, c.onResponse)
+			processor := NewClientProcessor(c, func(res *http.Response, err error) {
+				c.onResponse(nbc, res, err)
+			})
 			parser := NewParser(nbc, engine, processor, true, nbc.Execute)
 			parser.OnClose(func(p *Parser, err error) {
-				c.CloseWithError(err)
+				c.closeByConn(nbc, err)
 			})
 			nbc.SetSession(parser)
 
@@ -343,12 +365,14 @@ func (c *ClientConn) Do(req *http.Request, handler func(res *http.Response, conn
 
 			nbhttpConn := &Conn{Conn: tlsConn}
 			c.conn = nbhttpConn
-			processor := NewClientProcessor(c, c.onResponse)
+			processor := NewClientProcessor(c, func(res *http.Response, err error) {
+				c.onResponse(nbhttpConn, res, err)
+			})
 			parser := NewParser(nbhttpConn, engine, processor, true, nbc.Execute)
 			parser.Conn = nbhttpConn
 			parser.Engine = engine
 			parser.OnClose(func(p *Parser, err error) {
-				c.CloseWithError(err)
+				c.closeByConn(nbhttpConn, err)
 			})
 			nbc.SetSession(parser)
 
